@@ -16,8 +16,8 @@ From LV Require Model.Outline Spec.OutlineSpec Proofs.OutlineProofs.
    [sop] = SDoc <any operation of Model/Edit.v's op, incl. save> | SAddBookmark .. | SBuildOutline.
    [alloc_ok d]: max_id is at least every object number in use.  [doc_wf d]: the representation invariant of the
    BTreeMap (keys strictly increasing).  [sprog_dom]: every set_object of the program targets an id at or below the
-   cursor at that moment ("replace" an object that exists or was handed out), every renumber_objects is inside the
-   domain proved for C10 (bookmark targets included).  No hypothesis on the bookmark table: build_outline is covered
+   cursor at that moment ("replace" an object that exists or was handed out), every renumber_objects meets a
+   document with fewer than 2^32 objects.  No hypothesis on the bookmark table: build_outline is covered
    for every table.  For EVERY program and every interleaving of the operations: *)
 
 (* (1) the invariant survives the whole program *)
